@@ -1,8 +1,9 @@
 #!/bin/sh
-# runs the quick (or $1) tier of every claimed check and prints one line per check
+# runs the quick (or $1) tier of every claimed check (or of the checks named after the tier) and prints one line per check
 cd "$(dirname "$0")/.."
 TIER=${1:-quick}
-for id in $(python3 -c "import json;print(' '.join(c['property_id'] for c in json.load(open('MANIFEST.json'))['checks']))"); do
+[ $# -gt 0 ] && shift
+for id in ${@:-$(python3 -c "import json;print(' '.join(c['property_id'] for c in json.load(open('MANIFEST.json'))['checks']))")}; do
   s=$(date +%s)
   out=$(bin/check $id --tier $TIER 2>&1); rc=$?
   e=$(date +%s)
